@@ -48,6 +48,7 @@ func ledger09Case(w *vlog.W, a *wargs, id int) {
 		var removedLog []harness.Removed
 		shape := map[string]bool{}
 		nonce := uint64(1 << 40)
+		maxEver := l.GetChainMeta().Height
 		persist := func() {
 			meta := l.GetChainMeta()
 			h := meta.Height + 1
@@ -95,6 +96,9 @@ func ledger09Case(w *vlog.W, a *wargs, id int) {
 				er.TxHashes = append(er.TxHashes, t.String())
 			}
 			recs[h] = er
+			if h > maxEver {
+				maxEver = h
+			}
 			w.Count("ledger_blocks_persisted", 1)
 		}
 		audit := func(ctx string) {
@@ -149,7 +153,8 @@ func ledger09Case(w *vlog.W, a *wargs, id int) {
 					}
 				}
 				if err := l.Rollback(t); err != nil {
-					if strings.Contains(err.Error(), "journal") {
+					// journals older than (highest height ever committed - 9) are pruned: a target below that is refused
+					if strings.Contains(err.Error(), "journal") || (maxEver > 9 && t < maxEver-9) {
 						w.Count("rollbacks_refused_outside_window", 1)
 						continue
 					}
